@@ -1,6 +1,6 @@
 SPECIFICATION Spec
-CONSTANT MaxNodes = 9
-CONSTANT Targets = {3, 6, 9}
+CONSTANT MaxNodes = 11
+CONSTANT Targets = {6}
 CONSTANT Passes = 4
 CONSTANT Method = "External"
 CONSTANT ClearWorkspace = FALSE
